@@ -22,7 +22,7 @@ const OBJECT_CLASS: NativeMetaBuilder = NativeMetaBuilder::method("cls", Arity::
 const OBJECT_STR: NativeMetaBuilder = NativeMetaBuilder::method("str", Arity::Fixed(0));
 
 const OBJECT_IS_A: NativeMetaBuilder = NativeMetaBuilder::method("isA?", Arity::Fixed(1))
-  .with_params(&[ParameterBuilder::new("class", ParameterKind::Object)]);
+  .with_params(&[ParameterBuilder::new("class", ParameterKind::Class)]);
 
 pub fn create_object_class(hooks: &GcHooks) -> ObjRef<Class> {
   let name = hooks.manage_str(OBJECT_CLASS_NAME);
